@@ -56,7 +56,7 @@ def generate(ck, tier):
     frag = []
     for chans in (("ChansPRU",) if tier == "quick" else ("ChansPRU", "ChansPR")):
         p3 = os.path.join(ck.dir, f"sched_{chans}_{tier}_{os.getpid()}.ndjson")
-        r3 = sc.tlc_mc(ck, "fifo_" + chans, mode="fifo", budget=1 if tier == "quick" else 2, fair=True, chans=chans,
+        r3 = sc.tlc_mc(ck, "fifo_" + chans, mode="fifo", budget=1, fair=True, chans=chans,
                        msgs="MsgsPR3", init_a="{14}", init_b="{0}", win=4, sched_sink=p3,
                        timeout=900 if tier == "quick" else 3000)
         vlib.tlc_ok(r3, "fifo " + chans)
